@@ -35,11 +35,14 @@ def _coord(rng, fam: str, lo: int, hi: int):
         return rng.randint(10 * lo, 10 * hi) / 10
     if fam == "third":
         return rng.randint(3 * lo, 3 * hi) / 3
+    if fam.startswith("big"):          # one-decimal coordinates at magnitude 10^k (dies in micrometres / nanometres)
+        S = 10 ** int(fam[3:])
+        return rng.randint(10 * lo * S, 10 * hi * S) / 10
     return rng.uniform(lo, hi)
 
 
 Q_FAMS = ["int", "half", "dyadic", "dyadic"]
-F_FAMS = ["dec", "dec", "third", "float", "half"]
+F_FAMS = ["dec", "dec", "third", "float", "half", "big3", "big4", "big5"]
 Q_RATIOS = [0.0, 0.125, 0.25, 0.5, 0.5, 0.75, 0.875, 1.0]
 F_RATIOS = [0.0, 0.1, 0.3, 0.65, 0.7, 0.85, 0.95, 1.0, 0.5]
 MODS = ["M1", "M2", "M3", "_a", "B_7"]
@@ -47,15 +50,18 @@ MODS = ["M1", "M2", "M3", "_a", "B_7"]
 
 def gen_boxes(rng, mode: str, fam: str):
     """a guillotine partition of a die into 1..9 boxes (x0,y0,x1,y1); cuts may be slivers."""
-    ox = _coord(rng, fam, 0, 3) if rng.random() < 0.3 else 0.0
-    oy = _coord(rng, fam, 0, 3) if rng.random() < 0.3 else 0.0
-    W = max(_coord(rng, fam, 1, 8), 1.0)
-    H = max(_coord(rng, fam, 1, 8), 1.0)
-    if rng.random() < 0.15:   # long thin die
+    big = fam.startswith("big")
+    mag = float(10 ** int(fam[3:])) if big else 1.0
+    p_off = 0.6 if big else 0.3        # cells away from the origin: `xmin + w/2` rounds
+    ox = _coord(rng, fam, 0, 3) if rng.random() < p_off else 0.0
+    oy = _coord(rng, fam, 0, 3) if rng.random() < p_off else 0.0
+    W = max(_coord(rng, fam, 1, 8), mag)
+    H = max(_coord(rng, fam, 1, 8), mag)
+    if rng.random() < 0.15 and not big:   # long thin die (not at magnitude 1e5: see findings/C02_huge_die_overlap.json)
         W, H = (W, H * 8) if rng.random() < 0.5 else (W * 8, H)
     boxes = [(ox, oy, ox + W, oy + H)]
     target = rng.choice([1, 2, 3, 3, 4, 5, 5, 6, 7, 9])
-    sliver = (1 / 128 if mode == "Q" else 0.01)
+    sliver = (1 / 128 if mode == "Q" else 0.01) * mag
     tries = 0
     while len(boxes) < target and tries < 40:
         tries += 1
@@ -71,7 +77,7 @@ def gen_boxes(rng, mode: str, fam: str):
         elif r < 0.45:
             c = (lo + hi) / 2
         else:
-            c = _coord(rng, fam, int(lo), int(hi) + 1)
+            c = _coord(rng, fam, int(lo / mag), int(hi / mag) + 1)
         if not (lo < c < hi) or min(c - lo, hi - c) < sliver / 2:
             continue
         boxes[i] = (x0, y0, c, y1) if horiz else (x0, y0, x1, c)
@@ -127,7 +133,7 @@ def gen_input(rng, mode: str, flavour: str = "mixed") -> dict:
                 continue
             c["alloc"] = []
     eps = None
-    r = rng.random()
+    r = rng.random() if not fam.startswith("big") else 1.0     # preset tolerances are absolute: not for dies of size 1e3..1e6
     if r < 0.25:
         eps = [2.0 ** -30, 2.0 ** -20] if mode == "Q" else [1e-9, 1e-6]
     elif r < 0.32:
@@ -170,8 +176,21 @@ def _spoil(rng, cells) -> None:
 
 
 def next_op(rng, mode: str, a, mods: list[str], flavour: str):
-    """draw the next operation; an operation whose result would exceed the size cap is replaced by a query."""
+    """draw the next operation; an operation whose result would exceed the size cap is replaced by a query.
+    6 %: an OBJECT history on the same `Allocation`: a decision at threshold t (`must_be_refined(t)` or a discarded
+    `refine(t)`), then a refinable cell is flagged fixed IN PLACE (`rect.fixed = True`, what `_detect_fixed_rectangles` and
+    tests/test_griddify do), then the decision at the SAME threshold is taken again — returned as ["SEQ", ops]."""
     ncells = len(a.allocations)
+    refinable = [i for i, ra in enumerate(a.allocations) if not ra.rect.fixed]
+    if refinable and ncells <= MAX_CELLS // 2 and rng.random() < 0.06:
+        ratios = Q_RATIOS if mode == "Q" else F_RATIOS
+        vals = sorted({v for i in refinable for v in a.allocations[i].alloc.values()})
+        t = rng.choice(vals) if vals and rng.random() < 0.7 else rng.choice(ratios + [1.0])
+        cand = [i for i in refinable if a.allocations[i].alloc and all(v <= t for v in a.allocations[i].alloc.values())] or refinable
+        first = rng.choice([["M", t], ["M", t], ["R0", t, 1]])
+        last = rng.choice([["R", t, rng.choice([1, 1, 2])], ["R", t, 1], ["M", t]])
+        seq = [first, ["F", rng.choice(cand)]] + ([["F", rng.choice(refinable)]] if rng.random() < 0.2 else []) + [last]
+        return ["SEQ", seq]
     op = _next_op(rng, mode, ncells, mods, flavour)
     t = op[1] if op[0] == "R" else 0.5
     if op[0] == "U":
@@ -191,7 +210,9 @@ def _next_op(rng, mode: str, ncells: int, mods: list[str], flavour: str):
     r = rng.random()
     t = rng.choice(ratios + [1.0, 0.5])
     if ncells > MAX_CELLS:
-        return rng.choice([["M", t], ["A", mods[:]], ["C", mods[:]]]) if mods else ["M", t]
+        return rng.choice([["M", t], ["A", mods[:]], ["C", mods[:]], ["N"]]) if mods else ["M", t]
+    if rng.random() < 0.14:
+        return accessor_op(rng, ncells, mods)
     if flavour == "c12":
         if r < 0.30:
             return ["M", t]
@@ -216,6 +237,40 @@ def _next_op(rng, mode: str, ncells: int, mods: list[str], flavour: str):
         return ["M", t]
     ms = rng.sample(mods, rng.randint(0, len(mods))) if rng.random() < 0.9 else mods + ["nope"]
     return ["A", ms] if r < 0.93 else ["C", ms]
+
+
+def accessor_op(rng, ncells: int, mods: list[str]):
+    """a query of one of the read accessors: N = num_rectangles / num_modules / max_refinement_depth,
+    I i = allocation_rectangle(i) (also negative, == n, < -n), L m = allocation_module(m) (also unknown names),
+    K names = check_compatible(Netlist with these module names) (equal / subset / superset / permuted / empty)."""
+    r = rng.random()
+    if r < 0.2:
+        return ["N"]
+    if r < 0.5:
+        return ["I", rng.choice([0, ncells - 1, -1, -ncells, ncells, -ncells - 1, ncells + 3, rng.randint(-ncells - 2, ncells + 1)])]
+    if r < 0.75:
+        return ["L", rng.choice(mods + ["nope"]) if mods else "nope"]
+    k = rng.randrange(6)
+    names = list(mods)
+    if k == 0 and names:
+        names.pop(rng.randrange(len(names)))
+    elif k == 1:
+        names.append("X9")
+    elif k == 2:
+        rng.shuffle(names)
+    elif k == 3 and names:
+        names[rng.randrange(len(names))] = "Y_1"
+    elif k == 4:
+        names = []
+    return ["K", names]
+
+
+def compat_netlist(names: list[str]):
+    """a real `Netlist` whose modules are exactly `names` (the class-wide tolerance is already defined at this point, so the
+    constructor does not touch it)."""
+    from frame.netlist.netlist import Netlist
+    body = ", ".join(f"{n}: {{area: 1}}" for n in names)
+    return Netlist("Modules: {" + body + "}\nNets: []\n")
 
 
 # --------------------------------------------------------------------------------------------- implementation side
@@ -320,11 +375,18 @@ def run_impl(inp: dict, rng=None, flavour: str = "mixed", nops: int = 0):
         drawing = inp["ops"] is None
         ops = [] if drawing else inp["ops"]
         k = 0
+        queue: list = []
         while True:
             if drawing:
-                if k >= nops:
-                    break
-                op = next_op(rng, mode, a, module_order(a), flavour)
+                if queue:
+                    op = queue.pop(0)
+                else:
+                    if k >= nops:
+                        break
+                    op = next_op(rng, mode, a, module_order(a), flavour)
+                    if op[0] == "SEQ":
+                        queue = list(op[1])
+                        op = queue.pop(0)
                 ops.append(op)
             else:
                 if k >= len(ops):
@@ -333,8 +395,15 @@ def run_impl(inp: dict, rng=None, flavour: str = "mixed", nops: int = 0):
             k += 1
             try:
                 if op[0] == "M":
-                    segs.append(str(int(a.must_be_refined(op[1]))))
-                    steps.append((op, cur, None, None))
+                    pred = a.must_be_refined(op[1])
+                    segs.append(str(int(pred)))
+                    # the decision is judged against what `refine` does to the object AS IT IS NOW (it may be changed in
+                    # place later in the history)
+                    try:
+                        refd = snapshot(a.refine(op[1], 1))["cells"]
+                    except Exception as e2:
+                        refd = err(e2)
+                    steps.append((op, cur, {"answer": pred, "refined": refd}, None))
                     continue
                 if op[0] == "A":
                     segs.append(sc(a.area(list(op[1])), mode))
@@ -344,6 +413,48 @@ def run_impl(inp: dict, rng=None, flavour: str = "mixed", nops: int = 0):
                     p = a.center(list(op[1]))
                     segs.append(f"{sc(p.x, mode)} {sc(p.y, mode)}")
                     steps.append((op, cur, None, None))
+                    continue
+                if op[0] == "F":            # in-place flag change on the SAME object
+                    a.allocations[op[1]].rect.fixed = True
+                    segs.append(dump(a, mode))
+                    cur = snapshot(a)
+                    steps.append((op, None, cur, None))
+                    continue
+                if op[0] == "R0":           # refine whose result is discarded: the object itself stays in use
+                    a.refine(op[1], op[2])
+                    segs.append("-")
+                    again = snapshot(a)["cells"]
+                    if not cells_equal(again, cur["cells"], Fraction(0)):
+                        steps.append((["input-mutated", op], cur, {"cells": again}, "err:InputMutated"))
+                    else:
+                        steps.append((op, cur, None, None))
+                    continue
+                if op[0] == "N":
+                    ans = (a.num_rectangles, a.num_modules, a.max_refinement_depth())
+                    segs.append(f"{ans[0]} {ans[1]} {ans[2]}")
+                    steps.append((op, cur, {"answer": ans}, None))
+                    continue
+                if op[0] == "I":
+                    ra = a.allocation_rectangle(op[1])
+                    segs.append(cell_tokens(ra, mode))
+                    r0 = ra.rect
+                    steps.append((op, cur, {"answer": {"cx": Fraction(r0.center.x), "cy": Fraction(r0.center.y), "w": Fraction(r0.shape.w),
+                                                        "h": Fraction(r0.shape.h), "region": r0.region, "fixed": r0.fixed, "hard": r0.hard,
+                                                        "alloc": [(m, Fraction(v)) for m, v in ra.alloc.items()], "depth": ra.depth}}, None))
+                    continue
+                if op[0] == "L":
+                    ma = a.allocation_module(op[1])
+                    segs.append(f"{len(ma)}" + "".join(f" {x.rect_index} {sc(x.area_ratio, mode)}" for x in ma))
+                    steps.append((op, cur, {"answer": [(x.rect_index, x.area_ratio) for x in ma]}, None))
+                    continue
+                if op[0] == "K":
+                    eps_before = (Rectangle._distance_epsilon, Rectangle._area_epsilon)
+                    nl = compat_netlist(op[1])
+                    if (Rectangle._distance_epsilon, Rectangle._area_epsilon) != eps_before:
+                        Rectangle.set_epsilon(*eps_before)
+                    ans = a.check_compatible(nl)
+                    segs.append(str(int(ans)))
+                    steps.append((op, cur, {"answer": ans}, None))
                     continue
             except Exception as e:
                 segs.append(err(e))
@@ -369,6 +480,11 @@ def run_impl(inp: dict, rng=None, flavour: str = "mixed", nops: int = 0):
             a = a2
             segs.append(dump(a, mode))
             nxt = snapshot(a)
+            if op[0] == "G" and len(a.allocations) <= 2 * MAX_CELLS:
+                try:
+                    nxt["regrid"] = snapshot(a.griddify())["cells"]
+                except Exception as e2:
+                    nxt["regrid"] = err(e2)
             steps.append((op, cur, nxt, None))
             cur = nxt
         if drawing:
@@ -403,6 +519,16 @@ def request(inp: dict, sqrt_ans: float) -> str:
             toks.append(op[0])
         elif op[0] == "M":
             toks += ["M", sc(op[1], mode)]
+        elif op[0] == "F":
+            toks += ["F", str(op[1])]
+        elif op[0] == "R0":
+            toks += ["R0", sc(op[1], mode), str(op[2])]
+        elif op[0] == "N":
+            toks.append("N")
+        elif op[0] == "I":
+            toks += ["I", str(op[1])]
+        elif op[0] == "L":
+            toks += ["L", op[1]]
         else:
             toks += [op[0], str(len(op[1]))] + list(op[1])
     return " ".join(toks)
@@ -631,6 +757,62 @@ def gen_boundary_input(rng) -> dict:
               "alloc": [["M1", rng.choice(Q_RATIOS[1:])]], "depth": 0} for (x0, y0, x1, y1) in boxes]
     return {"expect_valid": True, "mode": "Q", "family": "boundary", "eps": None, "text": True, "cells": cells, "fixed": [],
             "ops": [["G"], ["M", 0.5]]}
+
+
+def gen_cascade_input(rng, mode: str) -> dict:
+    """layouts on which `griddify` needs SEVERAL rounds of its two sweeps (`fixes/C12_griddify_x_before_y.diff`): a big cell
+    S×S with a neighbour side line at distance a from its left side, refused as a sliver (a <= 1% of S) until a y cut at S/2
+    (or S/4) has shortened the cell (a > 1% of the piece); the narrow piece of width a then accepts a y line at distance b
+    from its lower side that every wider cell refuses (1% of a < b <= 1% of S), and optionally a further x line inside the
+    narrow piece at distance c from its left side that is accepted only for the piece of height b (1% of b < c <= 1% of S/2).
+    Lines are sides of neighbour cells above / on the right of the big cell.  Axes are swapped half of the time, the layout
+    is shifted by an offset, depths / regions / a fixed neighbour vary."""
+    k = rng.choice([1, 2, 4, 0.5]) if mode == "Q" else rng.choice([1.0, 0.1, 10.0, 3.0])
+    S = 128.0 * k if mode == "Q" else 100.0 * k
+    unit = S / 128.0 if mode == "Q" else S / 100.0            # 1 % of S (Q: 1/128 of S, i.e. below the 1.28 % line)
+    a = unit * rng.choice([1.0, 1.25, 0.75])
+    ycut = S / 2 if rng.random() < 0.7 or a <= 0.01 * S / 4 * 1.01 else S / 4
+    if not (a > 0.0101 * ycut):
+        ycut = S / 2
+        a = unit
+    b = unit * rng.choice([0.5, 0.75, 1.0])
+    deep = rng.random() < 0.5
+    c = a * rng.choice([0.25, 0.5]) if deep else None        # accepted only once the piece is b high: 1% b < c <= 1% ycut
+    if deep and not (c > 0.0101 * b and c <= 0.0099 * ycut):
+        c, deep = None, False
+    ox = rng.choice([0.0, 0.0, unit * 8, S])
+    oy = rng.choice([0.0, 0.0, unit * 16])
+    T = unit * rng.choice([8, 16, 32])                        # thickness of the neighbour strips
+    boxes = [(0.0, 0.0, S, S)]
+    xl = sorted({0.0, a, S} | ({c} if deep else set()))
+    for u, v in zip(xl, xl[1:]):                              # strip above: sides at x = a (and c)
+        boxes.append((u, S, v, S + T))
+    yl = sorted({0.0, b, ycut, S})
+    for u, v in zip(yl, yl[1:]):                              # strip on the right: sides at y = b, ycut
+        boxes.append((S, u, S + T, v))
+    swap = rng.random() < 0.5
+    cells = []
+    for i, (x0, y0, x1, y1) in enumerate(boxes):
+        if swap:
+            x0, y0, x1, y1 = y0, x0, y1, x1
+        x0, x1, y0, y1 = x0 + ox, x1 + ox, y0 + oy, y1 + oy
+        ratios = Q_RATIOS if mode == "Q" else F_RATIOS
+        cells.append({"kind": "V", "v": [(x0 + x1) / 2, (y0 + y1) / 2, x1 - x0, y1 - y0], "region": rng.choice([None, None, "dsp"]),
+                      "alloc": [[rng.choice(MODS[:3]), rng.choice(ratios[1:])]] + ([["B_7", rng.choice(ratios[1:])]] if rng.random() < 0.3 else []),
+                      "depth": rng.choice([0, 0, 1])})
+    order = list(range(len(cells)))
+    if rng.random() < 0.5:
+        rng.shuffle(order)
+    cells = [cells[i] for i in order]
+    fixed = []
+    if rng.random() < 0.25:
+        j = rng.randrange(len(cells))
+        if cells[j]["v"][2] < S and cells[j]["v"][3] < S:        # a fixed neighbour strip keeps its side lines
+            cells[j]["alloc"] = [["F" + str(j), 1.0]]
+            fixed = [j]
+    ops = [["G"], rng.choice([["M", 0.5], ["G"], ["U"], ["R", 0.5, 1]])]
+    return {"expect_valid": True, "mode": mode, "family": "cascade", "eps": None, "text": True, "cells": cells, "fixed": fixed,
+            "ops": ops}
 
 
 # --------------------------------------------------------------------------------------------- sum() of floats
@@ -874,6 +1056,51 @@ def spec_caches(ctx: Ctx, inp: dict, idx: int, op, snap: dict, size: int) -> Non
             return
 
 
+def spec_accessor(ctx: Ctx, inp: dict, idx: int, op, before: dict, after: dict | None, error) -> None:
+    """the read accessors answer what the cell list says (evaluated on the snapshot taken before the query):
+    `num_rectangles / num_modules / max_refinement_depth`, `allocation_rectangle(i)` with Python indexing (i >= n:
+    AssertionError, i < -n: IndexError), `allocation_module(m)` = [(index, ratio)] of the cells listing m in order
+    (KeyError otherwise), `check_compatible(netlist)` = equality of the two name SETS."""
+    cells = before["cells"]
+    n = len(cells)
+    size = len(inp["cells"]) + 4 * idx
+    names = []
+    for c in cells:
+        for m, _ in c["alloc"]:
+            if m not in names:
+                names.append(m)
+    got = None if after is None else after["answer"]
+    if op[0] == "N":
+        exp = (n, len(names), max(c["depth"] for c in cells))
+        if error is not None or tuple(got) != exp:
+            ctx.spec_fail("accessor:counts", inp, {"step": idx, "op": op, "impl": error or list(got), "expected": list(exp)}, size)
+    elif op[0] == "I":
+        i = op[1]
+        exp_err = "err:AssertionError" if i >= n else "err:IndexError" if i < -n else None
+        if exp_err is not None or error is not None:
+            if error != exp_err:
+                ctx.spec_fail("accessor:allocation_rectangle", inp, {"step": idx, "op": op, "impl": error or "returned", "expected": exp_err or "a cell"}, size)
+            return
+        c = cells[i]
+        if not same_cell(got, c, Fraction(0)):
+            ctx.spec_fail("accessor:allocation_rectangle", inp, {"step": idx, "op": op, "expected_cell": small(c)}, size)
+    elif op[0] == "L":
+        m = op[1]
+        if m not in names:
+            if error != "err:KeyError":
+                ctx.spec_fail("accessor:allocation_module", inp, {"step": idx, "op": op, "impl": error or "returned", "expected": "err:KeyError"}, size)
+            return
+        exp = [(i, v) for i, c in enumerate(cells) for (mm, v) in c["alloc"] if mm == m]
+        if error is not None or [(i, Fraction(v)) for i, v in got] != exp:
+            ctx.spec_fail("accessor:allocation_module", inp, {"step": idx, "op": op, "impl": error or [(i, float(v)) for i, v in got],
+                                                              "expected": [(i, float(v)) for i, v in exp]}, size)
+    elif op[0] == "K":
+        exp = set(op[1]) == set(names)
+        if error is not None or bool(got) != exp:
+            ctx.spec_fail("accessor:check_compatible", inp, {"step": idx, "op": op, "impl": error or bool(got), "expected": exp,
+                                                             "listed": names}, size)
+
+
 # --------------------------------------------------------------------------------------------- C12 clauses
 def halves(c: dict, levels: int) -> list[dict]:
     """the cells `_split_allocation` must produce: repeatedly halve the longer side (ties: the width)."""
@@ -973,17 +1200,13 @@ def spec_c12_step(ctx: Ctx, inp: dict, idx: int, op, before: dict, after: dict |
     olds = before["cells"]
     t = tol_of(mode, olds)
     if op[0] == "M":
-        a: Allocation = before["obj"]
-        Rectangle.set_epsilon(*before["eps"])       # the class-wide tolerances the history ran with
-        try:
-            pred = a.must_be_refined(op[1])
-            ref = a.refine(op[1], 1)
-            new = snapshot(ref)["cells"]
-        except Exception as e:
-            ctx.spec_fail("refine_ok", inp, {"step": idx, "op": op, "raised": err(e)}, size)
+        if error is not None or after is None:
+            ctx.spec_fail("refine_ok", inp, {"step": idx, "op": op, "raised": error}, size)
             return
-        finally:
-            Rectangle.undefine_epsilon()
+        pred, new = after["answer"], after["refined"]
+        if isinstance(new, str):
+            ctx.spec_fail("refine_ok", inp, {"step": idx, "op": op, "raised": new}, size)
+            return
         changed = not cells_equal(olds, new, Fraction(0))
         if pred != changed:
             which = [small(c) for c in olds if (len(c["alloc"]) == 0 or c["fixed"])][:2]
@@ -1012,19 +1235,27 @@ def spec_c12_step(ctx: Ctx, inp: dict, idx: int, op, before: dict, after: dict |
                           lambda c: 0 if c["fixed"] else mx - c["depth"], t, size)
     elif op[0] == "G":
         spec_aligned(ctx, inp, idx, op, olds, news, size)
+        if "regrid" in after:
+            # `FV.C12.griddify_idempotent`: gridding the result again (cut lines gathered anew) changes nothing
+            again = after["regrid"]
+            if isinstance(again, str):
+                ctx.spec_fail("griddify_ok", inp, {"step": idx, "op": op, "second_call_raised": again}, size)
+                return
+            if not cells_equal(news, again, t):
+                ctx.spec_fail("griddify_idempotent", inp, {"step": idx, "op": op, "cells": len(news), "cells_after_second_call": len(again)}, size)
 
 
 def spec_aligned(ctx: Ctx, inp: dict, idx: int, op, olds, news, size: int) -> None:
-    """no refinable result cell is crossed by a side line of another result cell, sliver cuts (< 1% of the cell's
-    other side) excepted.  A crossing that was refused as a sliver with respect to the *parent's* other side (the
-    side the decision was taken with, before the y cuts shortened the cell) is the registered open finding."""
+    """no refinable result cell is crossed by a side line of another result cell, sliver cuts (< 1% of the RESULT cell's
+    other side) excepted — in both directions (`FV.C12.griddify_no_crossing`).  Since `fixes/C12_griddify_x_before_y.diff`
+    (the two sweeps are repeated until a round cuts nothing) there is no excepted region any more: a crossing that was
+    refused as a sliver for the taller parent cell is a failure like any other (detail `parent_h` tells the two apart)."""
     mode = inp["mode"]
     t = tol_of(mode, olds)
     margin = Fraction(1, 10 ** 6) if mode == "F" else Fraction(0)
     xs = sorted({v for c in news for v in (cbb(c)[0], cbb(c)[2])})
     ys = sorted({v for c in news for v in (cbb(c)[1], cbb(c)[3])})
     rho = Fraction(0.01) if mode == "Q" else RHO
-    tagged = 0
     for c in news:
         if c["fixed"]:
             continue
@@ -1033,16 +1264,14 @@ def spec_aligned(ctx: Ctx, inp: dict, idx: int, op, olds, news, size: int) -> No
             if x0 + t < x < x1 - t and min(x - x0, x1 - x) > rho * c["h"] * (1 + margin) + t:
                 ps = find_parent(c, olds, t)
                 ph = max((olds[i]["h"] for i in ps), default=c["h"])
-                sliver_for_parent = min(x - x0, x1 - x) <= rho * ph * (1 + margin) + t and ph > c["h"]
                 ctx.spec_fail("griddify_aligned:x", inp,
-                              {"step": idx, "op": op, "cell": small(c), "line_x": float(x), "parent_h": float(ph)}, size,
-                              finding="C12-griddify-x-before-y" if sliver_for_parent else None)
-                if not sliver_for_parent:
-                    return
-                tagged += 1
-                if tagged >= 8:       # the registered finding: keep inspecting the other lines and cells (bounded)
-                    break
+                              {"step": idx, "op": op, "cell": small(c), "line_x": float(x), "parent_h": float(ph),
+                               "sliver_for_parent": bool(min(x - x0, x1 - x) <= rho * ph * (1 + margin) + t and ph > c["h"])}, size)
+                return
         for y in ys:
             if y0 + t < y < y1 - t and min(y - y0, y1 - y) > rho * c["w"] * (1 + margin) + t:
-                ctx.spec_fail("griddify_aligned:y", inp, {"step": idx, "op": op, "cell": small(c), "line_y": float(y)}, size)
+                ps = find_parent(c, olds, t)
+                pw = max((olds[i]["w"] for i in ps), default=c["w"])
+                ctx.spec_fail("griddify_aligned:y", inp, {"step": idx, "op": op, "cell": small(c), "line_y": float(y),
+                                                           "parent_w": float(pw)}, size)
                 return
